@@ -64,6 +64,9 @@ Clauses(pre, e) ==
   C16_ResaveUserFieldsOnly |->
       (e.id \in Load(f0) /\ f0.ana[e.id].fit = e.fit /\ e.out = "ok")
          => e.fitpart_same,
+  \* loading a directory that also holds ANOTHER container with the same
+  \* curves under other fits: every rating shows its own fit
+  C16_DirectoryLoadKeepsFits |-> e.dirload_ok,
   C16_RefusedFileUnchanged |-> (e.out = "refused") => e.file_bytes_same,
   \* owed as soon as anything loadable is stored
   \* the container only ever grows: what was loadable stays loadable, with
